@@ -1016,6 +1016,22 @@ def selftest(chk: Check) -> None:
         Mutations.rl_hyperparam_mutation = o_hp
 
 
+    # 5. multi-agent: every critic gets the arguments sub-agent 0's actor drew
+    o_apply = Mutations._apply_arch_mutation
+
+    def first_args(self, networks, mut_method, applied_mut_dict=None):
+        if isinstance(networks, list) and isinstance(applied_mut_dict, list) and applied_mut_dict:
+            applied_mut_dict = [applied_mut_dict[0]] * len(networks)
+        return o_apply(self, networks, mut_method, applied_mut_dict)
+    Mutations._apply_arch_mutation = first_args
+    try:
+        must_fail("critics of every sub-agent receive sub-agent 0's mutation arguments",
+                  dict(base, algo="MADDPG", ops=[["mutate", UNIT["arch"], 0, 11 + k, 1] for k in range(5)]),
+                  "did not receive the same architecture change")
+    finally:
+        Mutations._apply_arch_mutation = o_apply
+
+
 def replay(chk: Check, path: str) -> int:
     c = json.loads(open(path).read())
     c = c.get("replay", c)
